@@ -31,7 +31,7 @@ def RF(kind, rel, trid=""):
 
 APP_TR = {"t": "send", "m": {"kind": "TR", "seqm": "none", "seqv": 0, "pd": False, "gf": False, "trid": "9", "pay": ""}}
 PRE = [{"t": "attach"}, RF("LOGON", 0)]
-PEER = [RF("HB", 0), RF("HB", 0, "match"), RF("HB", 0, "wrong"), RF("TR", 0, "T1"), RF("HB", 1, "match"), RF("APP", 0),
+PEER = [RF("HB", 0), RF("HB", 0, "match"), RF("HB", 0, "wrong"), RF("HB", 0, "wronghi"), RF("HB", 0, "wrongtxt"), RF("TR", 0, "T1"), RF("HB", 1, "match"), RF("APP", 0),
         RF("TR", 1, "T2"), RF("APP", 1), RF("HB", -1, "match")]
 
 
@@ -55,7 +55,7 @@ def random_script(rng, H, n):
             if pending is None and q % (4 * H) == 4 * H - 1:
                 pending = q + delay
             if pending is not None and q >= pending:
-                revs.append(RF("HB", 0, rng.choice(["match", "match", "match", "wrong", ""])))
+                revs.append(RF("HB", 0, rng.choice(["match", "match", "match", "wrong", "wronghi", "wrongtxt", ""])))
                 pending = None
         elif mode == "random" and rng.random() < 0.15:
             revs.append(rng.choice(PEER + [APP_TR]))
@@ -103,6 +103,11 @@ def run(ctx):
         # only maximal behaviours are needed? every distinct state's path is a prefix-closed set; replay all
         for i, p in enumerate(d["edges"]):
             specs.append({"id": "m%d.%d.%d" % (H, ph, i), "hb": H, "scale": 4, "phase": ph, "revs": PRE + list(p)})
+            # the VIEW keeps one path per distinct state, so events with the same effect (the classes of wrong
+            # TestReqIDs) are merged in the model: apply every peer frame of the alphabet at a sample of the states
+            if i % (25 if q else 4) == 0:
+                for k, e in enumerate(PEER):
+                    specs.append({"id": "m%d.%d.%d+%d" % (H, ph, i, k), "hb": H, "scale": 4, "phase": ph, "revs": PRE + list(p) + [e, {"t": "adv"}]})
     nmodel = len(specs)
     rng = random.Random(ctx.seed * 13 + 12)
     nr = 300 if q else 4000
